@@ -118,6 +118,21 @@ func zzC07ImportMap() {
 	verifReach("end")
 }
 
+//verif:harness C07 import_map_any_extension unwind=400 paths=200000 wall=900
+//verif:expect end
+//verif:doc ImportTLSClientHello with an extensions list holding one arbitrary 16-bit id (every per-extension key present with a well-formed value): error or spec, never a panic — covers every branch of the id switch, including ids without a data key.
+func zzC07ImportMapAnyExtension() {
+	data := map[string][]byte{
+		"cipher_suites": {0x13, 0x01}, "compression_methods": {0}, "extensions": verifBytes("extid", 2),
+		"pt_fmts": {1, 0}, "sig_algs": {0, 2, 4, 3}, "supported_versions": {3, 4}, "curves": {0, 2, 0, 29}, "alpn": {0, 3, 2, 'h', '2'},
+		"key_share": {0, 29, 0, 2}, "psk_key_exchange_modes": {1}, "cert_compression_algs": {0, 2}, "record_size_limit": {64, 1},
+	}
+	spec := &ClientHelloSpec{}
+	err := spec.ImportTLSClientHello(data)
+	_ = err
+	verifReach("end")
+}
+
 // zzStubJSONUnmarshal models encoding/json.Unmarshal by its contract: it
 // returns an error, or returns nil having left each destination field either
 // untouched (zero) or set to an arbitrary value of its type; pointer fields may
